@@ -11,8 +11,8 @@ PROPERTY = "C05"
 LEVEL = "model_checking"
 ENGINE = "E-SCEN"
 RULE = (
-    "every multiset of n reporting units (n in 3..N) over (baseline+1 = w in {10,20,50}) x (counted = {5,12,30,80} * w/10), with three outstanding "
-    "units (partial counts 0 / small / huge), unit types county and precinct, wide and default turnout-factor limits; one real get_estimates each, no "
+    "every multiset of n reporting units (n in 3..N) over (baseline+1 = w in {10,20,50}) x (counted = {5,12,30,80} * w/10), with four outstanding "
+    "units (baseline+1 in {13,27,50,7}, partial counts 0 / small / huge / 1, so products are fractional), unit types county and precinct, wide and default turnout-factor limits; one real get_estimates each, no "
     "features, no fixed effects. Oracle in exact rationals: m = w-weighted median of (counted-w)/w over the modelled reporting units; every outstanding "
     "unit's pred = max(round(w_i(1+m)), partial_i). Scenarios whose weighted median is not unique are counted and skipped. non-trivial = weighted and "
     "unweighted median differ, or the floor binds, or m<0"
@@ -78,7 +78,7 @@ def evaluate(case):
             counted = k * w // 10
             uid = f"AAc{i % 2}_r{i}" if ut == "precinct" else f"AA{i:03d}"
             units.append(E.make_unit(uid, "AA", f"AAc{i % 2}" if ut == "precinct" else uid, "r", None, (w // 3, w // 3, w - 1), (counted // 2, counted // 3, counted), 100.0))
-        for j, (w, partial) in enumerate([(10, 0), (20, 3), (50, 500)]):
+        for j, (w, partial) in enumerate([(13, 0), (27, 3), (50, 500), (7, 1)]):
             uid = f"AAc{j % 2}_n{j}" if ut == "precinct" else f"AA9{j:02d}"
             units.append(E.make_unit(uid, "AA", f"AAc{j % 2}" if ut == "precinct" else uid, "u", None, (w // 3, w // 3, w - 1), (partial // 2, partial // 3, partial), 40.0 if partial else 0.0))
         mp = {"turnout_factor_lower": 0.0, "turnout_factor_upper": 1000.0} if case["limits"] == "wide" else {}
